@@ -15,7 +15,8 @@ What is a PARAMETER (cryptography and environment), bundled in `Env`:
 
 Go `uint64` are `Nat` with the wrap made explicit (`% two64`) where the code can wrap: `signedWeight += Weight`,
 `L[i] = L[i-1] + Weight[i-1]`, and the verifier's `L + Weight`.
-The Go map `Reveals` is an association list (keys distinct: invariant `Nodup`, Props.C39.createProof_keys_nodup);
+The Go map `Reveals` is an association list (keys distinct: invariant `RevInv.nodup` of the reveal loop,
+Lemmas.StateProof.revealLoop_spec);
 the verifier walks it in list order (Go: random order — only WHICH error is reported first depends on it).
 
 `validateStateProof` / `acceptableWeight` model stateproof/verify/stateproof.go (ValidateStateProof,
@@ -224,7 +225,7 @@ inductive PErr where
   | reveals (e : Err)         -- numReveals
   | coinIndex                 -- ErrCoinIndexError
   | coinGen                   -- scripted XOF exhausted
-  | indexPanic                -- a Go index-out-of-range panic (unreachable: `coinIndex_lt`, lengths agree)
+  | indexPanic                -- a Go index-out-of-range panic (unreachable: `coinIndex_spec` gives pos < len, lengths agree)
   | vcProve                   -- Tree.Prove error
   deriving DecidableEq, Repr
 
@@ -272,7 +273,7 @@ def commitSigs : List (SigSlot S) → List (SigSlot S)
   | [] => []
   | x :: xs => x :: commitTail x.commit.L x.weight xs
 
-/-- the `again:` loop of coinIndex; fuel `len+1` always suffices (Props.C39.coinIndex_fuel) -/
+/-- the `again:` loop of coinIndex; fuel `len+1` always suffices (Lemmas.StateProof.coinIndexLoop_spec) -/
 def coinIndexLoop (sigs : List (SigSlot S)) (coin : Nat) : Nat → Nat → Nat → Except PErr Nat
   | 0, _, _ => .error .indexPanic
   | fuel + 1, lo, hi =>
